@@ -6,8 +6,8 @@
 From Coq Require Import List NArith Bool String Ascii.
 Import ListNotations.
 From TP Require Import Core Val Path Unix Win Obs Spec Ops Oracles Utf8.
-Open Scope N_scope.
 Open Scope string_scope.
+Open Scope N_scope.
 
 Definition VBad := VC "badargs" [].
 
@@ -103,7 +103,17 @@ Fixpoint run_fuel (fuel : nat) (op : string) (args : list val) : val :=
   (* pair.<op> : the Unix byte family next to real std::path on the same arguments *)
   if tag_is name "pair" then
     match fuel with
-    | S f => vpair (run_fuel f (suffix ++ ".u") args) (run_fuel f (suffix ++ ".sd") args)
+    | S f => vpair (run_fuel f (suffix ++ ".u")%string args) (run_fuel f (suffix ++ ".sd")%string args)
+    | O => VBad
+    end
+  (* same.<op>.<family> : a UTF-8 / runtime-typed / platform family next to the byte family of its encoding
+     (C14 C15): the model answers both with the byte model *)
+  else if tag_is name "same" then
+    match fuel with
+    | S f =>
+        let (n2, fam) := split_dot suffix EmptyString in
+        let bytefam := match family fam with Some (SelW, _) => "w" | _ => "u" end in
+        vpair (run_fuel f suffix args) (run_fuel f (n2 ++ "." ++ bytefam)%string args)
     | O => VBad
     end
   else
@@ -177,11 +187,103 @@ Fixpoint run_fuel (fuel : nat) (op : string) (args : list val) : val :=
   end.
 Definition run := run_fuel 1.
 
-Definition check (op : string) (args : list val) (out : val) : bool :=
+(* ---- the Unix byte family next to real std::path (C01 C06 C07 C13): same answers ---- *)
+Definition KNOWN_C06_STRIP_UNTRIMMED : N := 6.
+Definition snap_parts (v : val) : option (list byte * val) :=
+  match vargs "t" v with Some [VB b; r; _] => Some (b, r) | _ => None end.
+Fixpoint hist_rel (ops : list val) (us ss : list val) : bool :=
+  match ops, us, ss with
+  | [], [], [] => true
+  | op :: ops', u :: us', s :: ss' =>
+      match snap_parts u, snap_parts s with
+      | Some (bu, ru), Some (bs, rs) =>
+          val_eqb ru rs && list_eqb (ucomps bu) (ucomps bs) &&
+          (match op with
+           | VC t [VB x] => if (tag_is t "push" || tag_is t "join") && negb (match x with [] => true | _ => false end)
+                            then beq_list bu bs else true
+           | _ => true
+           end) && hist_rel ops' us' ss'
+      | _, _ => false
+      end
+  | _, _, _ => false
+  end.
+Definition oracle_pair (which : string) (args : list val) (out : val) : N :=
+  match vargs "t" out with
+  | Some [u; s] =>
+      if tag_is which "c06" then
+        match vargs "c06" u, vargs "c06" s with
+        | Some [pu; au; nu; ru; eu; fu], Some [ps; as_; ns; rs; es; fs] =>
+            let same := val_eqb pu ps && val_eqb au as_ && val_eqb nu ns && val_eqb eu es && val_eqb fu fs in
+            match vargs "t" ru, vargs "t" rs with
+            | Some [swu; ewu; spu], Some [sws; ews; sps] =>
+                if negb (same && val_eqb swu sws && val_eqb ewu ews) then fail
+                else if val_eqb spu sps then pass
+                else match obytes spu, obytes sps with
+                     | Some (Some a), Some (Some b) =>
+                         (* typed-path returns the raw remainder, std the trimmed one: path-equal, impl = std ++ junk *)
+                         if bytes_prefix b a && list_eqb (ucomps a) (ucomps b) then KNOWN_C06_STRIP_UNTRIMMED else fail
+                     | _, _ => fail
+                     end
+            | _, _ => fail
+            end
+        | _, _ => fail
+        end
+      else if tag_is which "hist" then
+        match args, vargs "hist" u, vargs "hist" s with
+        | [_; VL ops], Some [VL us], Some [VL ss] => ob (hist_rel ops us ss)
+        | _, _, _ => fail
+        end
+      else if tag_is which "c13" then
+        match vargs "c13" u, vargs "c13" s with
+        | Some (hu :: _), Some (hs :: _) => ob (val_eqb hu hs)
+        | _, _ => fail
+        end
+      else if tag_is which "c03" then
+        match vargs "c03" u, vargs "c03" s with
+        | Some [VL su; iu], Some [VL ss; is_] =>
+            ob (all2 (fun a b =>
+                        match vargs "st" a, vargs "st" b with
+                        | Some [ca; VB ra; _], Some [cb; VB rb; _] => val_eqb ca cb && list_eqb (ucomps ra) (ucomps rb)
+                        | _, _ => false
+                        end) su ss)
+        | _, _ => fail
+        end
+      else pass
+  | _ => fail
+  end.
+
+(* what a runtime-typed answer must look like once the wrapper is erased: the variant tags
+   (tu)/(tw) become N and, for c05, the discriminant the derived Hash of the wrapper feeds first
+   is dropped from both hash feeds *)
+Fixpoint erase_variant (v : val) : val :=
+  match v with
+  | VC t [] => if tag_is t "tu" || tag_is t "tw" then VN else v
+  | VC t l => VC t (map erase_variant l)
+  | VL l => VL (map erase_variant l)
+  | _ => v
+  end.
+Definition untype (name : string) (v : val) : val :=
+  let v := erase_variant v in
+  if tag_is name "c05" then
+    match v with
+    | VC t [ec; VL (_ :: ha); VL (_ :: hb)] => VC t [ec; VL ha; VL hb]
+    | _ => v
+    end
+  else v.
+
+Definition check (op : string) (args : list val) (out : val) : N :=
   let (name, suffix) := split_dot op EmptyString in
   if tag_is name "c01" then
     match args with
-    | [VB p; VB sched] => match d_c01 out with Some o => check_c01 p (e_dirs sched) o | None => false end
-    | _ => false
+    | [VB p; VB sched] => match d_c01 out with Some o => ob (check_c01 p (e_dirs sched) o) | None => 0 end
+    | _ => 0
+    end
+  else if tag_is name "pair" then oracle_pair suffix args out
+  else if tag_is name "same" then
+    let (n2, fam) := split_dot suffix EmptyString in
+    let typed := match family fam with Some (_, t) => t | None => false end in
+    match vargs "t" out with
+    | Some [a; b] => ob (val_eqb (if typed then untype n2 a else a) b)
+    | _ => 0
     end
   else oracle name suffix args out.
